@@ -57,6 +57,32 @@ def run_scripts(pid, tag, lines, seed, cfg):
     return {"events": n, "classes": cls, "samples": samples, "states": v["states"]}
 
 
+def boundary_histories():
+    """fixed honest histories at the boundaries: zero-amount payments (also at zero balances), whole balances either way,
+    a merchant-funded channel, initial balances whose sum exceeds 2^63-1"""
+    I = 2**63 - 1
+    def est(cb, mb):
+        return [{"act": "reset"}, {"act": "request", "ch": 1, "cb": str(cb), "mb": str(mb)}, {"act": "minit", "ch": 1}, {"act": "deliver", "ch": 1},
+                {"act": "mactivate", "ch": 1}, {"act": "deliver", "ch": 1}]
+    def pay(a):
+        return [{"act": "start", "ch": 1, "amt": str(a)}, {"act": "mallow", "ch": 1}, {"act": "deliver", "ch": 1}, {"act": "mcomplete", "ch": 1}, {"act": "deliver", "ch": 1}]
+    def seq(cb, mb, amounts):
+        out = est(cb, mb)
+        for a in amounts:
+            if 0 <= cb - a <= I and 0 <= mb + a <= I:
+                out += pay(a)
+                cb, mb = cb - a, mb + a
+            else:
+                out += pay(a)[:1]          # the start is refused: nothing follows
+        return out + [{"act": "close", "ch": 1}]
+    return (seq(50, 5, [0, 4, 0, 0, -3, 49, 0, -55, 0, 55, -1])
+            + seq(0, 7, [0, -7, 0, 7, 0])
+            + seq(I, I, [0, 1, -1, I, -I])
+            + seq(I, 1, [0, I, -I, -1])
+            + seq(0, 0, [0, 0])
+            + seq(1, I, [1, 0, -I]))
+
+
 def campaign(pid, tier, seed, model_cfg, sim_cfg, sim_num, sim_depth, scales, drv_runs, drv_steps, drv_kwargs,
              trace_cfg="Trace_ZkAbacus_notwin.cfg", drop_restore=True, must_cover=None, workers=8):
     t0 = time.time()
@@ -80,6 +106,7 @@ def campaign(pid, tier, seed, model_cfg, sim_cfg, sim_num, sim_depth, scales, dr
         kw["big"] = kw.get("big", False) or (i % 2 == 1)
         d = protodrv.RandomDriver(rng, **kw)
         lines += d.run(drv_steps)
+    lines += boundary_histories()
     if drop_restore:
         lines = [l for l in lines if l["act"] != "restore"]
     if lines:
@@ -264,6 +291,9 @@ def check_C14(tier, seed):
     def payn(a):
         return [{"act": "start", "ch": 1, "amt": str(a)}] + pay[1:]
     lines += [{"act": "reset"}] + est + payn(0) + payn(4) + payn(0) + payn(0) + payn(-3) + payn(49) + payn(0) + payn(-55) + [{"act": "close", "ch": 1}]
+    # the same kind of history under a generator whose word-sized draws are constant and whose fallible interface fails
+    # (randomness forked from next_u64, or defaulted when try_fill_bytes fails, repeats under it)
+    lines += [{"act": "reset"}, {"act": "rngmode", "frugal": True}] + est + payn(4) + payn(4) + payn(0) + payn(-3) + [{"act": "close", "ch": 1}]
     d = os.path.join(WORK, "C14_run")
     os.makedirs(d, exist_ok=True)
     sp, tp, ap = os.path.join(d, "script.ndjson"), os.path.join(d, "proto.trace.ndjson"), os.path.join(d, "atoms.trace.ndjson")
